@@ -107,7 +107,7 @@ func checkC04(r *Run) propMeta {
 							continue // typed tokens: R2
 						}
 					}
-					if reason, listed := r.InTableAt(rawTbl, "c04_raw_identifier_writes", construct, finfo, fd, "raw-write:"+namedName(tv.Type)); listed {
+					if reason, listed := r.InTableAt(rawTbl, "c04_raw_identifier_writes", construct, finfo, fd, "raw-write:"+namedName(tv.Type), positionKey(finfo, fd, a)); listed {
 						r.Pass("C04-R1-raw-write", construct, a.Pos(), "table: %s", reason)
 						continue
 					}
